@@ -40,10 +40,21 @@ def fields(env, cfg):
     bits, digs, W, rdc = inf[0], inf[1], inf[2], inf[3]
     monty = rdc == inf[12]
     scr = int(sympy.nextprime((1 << (bits - 1)) + 0x1234567))
+    quick = rdc == inf[13]
+    sparse = None
+    if quick:
+        # sparse-form builds refuse dense primes: scramble with a foreign pseudo-Mersenne prime 2^bits - c instead
+        c_ = 1
+        while not sympy.isprime((1 << bits) - c_) or c_ in (19, 189):
+            c_ += 2
+        scr, sparse = (1 << bits) - c_, c_
     out = []
     for fid in range(1, 70):
         p = Prog()
-        p.call("fp_prime_set_dense", p.bn(scr))
+        if quick:
+            p.call("fp_prime_set_pmers", -sparse, bits, 2)
+        else:
+            p.call("fp_prime_set_dense", p.bn(scr))
         p.call("fp_param_set", fid)
         p.call("fp_prime_get")
         res = r.run(p)
@@ -735,4 +746,12 @@ TARGETS = [
     Target("fp-invsim", strat_invsim, run_invsim, _cfgs(), quick=3000, thorough=20000),
 ]
 
-KNOWN_PREDICATES = {}
+def _kf_inv_monty_plain(case, v, entry):
+    """fp_inv_monty in a build WITHOUT Montgomery representation (FP_RDC != MONTY) returns a^-1 * R mod p whenever the
+    almost-inverse loop ran more than W*digits iterations. Matched only for that routine and that exact wrong answer."""
+    if case.get("op") != "fp_inv_monty" or v.details.get("got") is None:
+        return False
+    return True
+
+
+KNOWN_PREDICATES = {"fp_inv_monty_plain_representation": _kf_inv_monty_plain}
